@@ -712,6 +712,24 @@ def directed_plans(prop, profile):
                            "how": "registry", "via": "all"},
                  "batch": [0, 1], "oracle": []}],
         "timeout": 300.0}))
+  if profile == "ec" and prop in ("C10",):
+    # top-shift forms on a curve whose order length is not a multiple of 8
+    c = A.curve_by_name("secp521r1")
+    keys = []
+    for v, sh in ((0x01FFFFFF, 496), (0x01234567, 496), (0x1ABCD, 504),
+                  (0x1FF, 512), (0x00FFFFFF, 496)):
+      keys.append(A.ec_from_priv(c, v << sh, "weak_priv:shift%d" % sh, v=v,
+                                 mult=A.i2h(1 << sh), edge="top_shift",
+                                 expect=["CheckWeakECPrivateKey"]))
+    out.append(("directed-top-shift-521", {
+        "engine": "A", "kind": "ec", "profile": "ec", "focus": prop,
+        "knobs": {"clock_seed": 6, "max_diff": 256, "denylist": {}},
+        "pool": keys, "initial_annotations": {},
+        "ops": [{"op": "check",
+                 "check": {"name": "CheckWeakECPrivateKey", "how": "registry",
+                           "via": "all"}, "batch": [0, 1, 2, 3, 4],
+                 "oracle": []}],
+        "timeout": 900.0}))
   if profile == "ec" and prop in ("C17",):
     # F5: overshoot zone of BatchDL; alone in a fresh process vs after a batch
     c = A.curve_by_name("secp256r1")
